@@ -55,8 +55,24 @@ class Space(object):
         self.constraints.append((tuple(slots), frozenset(allowed)))
 
 
+_CKEY_MEMO = {}
+
+
 def ckey(v):
     """Stable sort/identity key for constants appearing in tables."""
+    try:
+        k = (v.__class__, v)
+        r = _CKEY_MEMO.get(k)
+        if r is None:
+            r = _ckey(v)
+            if len(_CKEY_MEMO) < 200000:
+                _CKEY_MEMO[k] = r
+        return r
+    except TypeError:
+        return _ckey(v)
+
+
+def _ckey(v):
     if isinstance(v, bool):
         return "b:%s" % v
     if isinstance(v, int):
@@ -450,7 +466,8 @@ class Folder(object):
                 for k, v in table.items():
                     k2 = k[:i] + k[i + 1 :]
                     if k2 in groups:
-                        if ckey(groups[k2]) != ckey(v):
+                        g = groups[k2]
+                        if g is not v and (type(g) is not type(v) or ckey(g) != ckey(v)):
                             dep = True
                             break
                     else:
